@@ -1,9 +1,154 @@
-From Coq Require Import List ZArith Bool NArith.
+(** C34 — Bitswap messages round-trip and decoded blocks are self-certifying.
+    ONLY the property theorems, each closed by [exact] of a lemma of
+    [proofs/P_C34.v], with [Print Assumptions] beneath it.
+    Model: [model/M_C34.v] (bitswap/message/message.go at the pb.Message level plus
+    go-cid's Cast / Prefix / PrefixFromBytes / go-varint; the hash functions enter as
+    the arguments [H] (Prefix.Sum, [None] = error) and [H0] (sha2-256 CIDv0 of
+    blocks.NewBlock) that every theorem quantifies over). *)
+From Coq Require Import List ZArith Bool NArith Permutation.
 From V Require Import lib.Verdict model.M_C34 proofs.P_C34.
 Import ListNotations.
 Open Scope Z_scope.
 
-Theorem C34_merge_idempotent : forall e p c wt s,
-  let e1 := merge_ent e p c wt s in merge_ent (merge_ent e1 p c wt s) p c wt s = merge_ent e1 p c wt s.
+(** v1 wire format.  For every message whose CIDs are well-formed and whose blocks are
+    honest ([wfb]), and for EVERY order in which Go's map iteration may emit the
+    entries, payload blocks and presences ([pb_perm]), decoding yields the same
+    message: same entries (CID, priority, type, cancel, send-dont-have), same blocks,
+    same presences, same full flag, same pending bytes. *)
+Theorem C34_v1_roundtrip : forall H H0 m pb,
+  wfb H m = true -> pb_perm pb (to_pb_v1 m) ->
+  exists m', from_pb H H0 pb = Some m' /\ msg_equiv m' m.
+Proof. exact v1_roundtrip. Qed.
+Print Assumptions C34_v1_roundtrip.
+
+(** [wfb] is not an artificial side condition: every message built by ANY sequence of
+    AddEntry / Cancel / Remove / AddBlock / AddBlockPresence / SetPendingBytes / Reset
+    calls with well-formed CIDs and honest blocks satisfies it. *)
+Theorem C34_api_wf : forall H ops full,
+  forallb (op_okb H) ops = true -> wfb H (run full ops) = true.
+Proof. exact api_wf. Qed.
+Print Assumptions C34_api_wf.
+
+Theorem C34_api_roundtrip : forall H H0 ops full pb,
+  forallb (op_okb H) ops = true -> pb_perm pb (to_pb_v1 (run full ops)) ->
+  exists m', from_pb H H0 pb = Some m' /\ msg_equiv m' (run full ops).
+Proof. intros H H0 ops full pb Hok. apply v1_roundtrip. apply api_wf. exact Hok. Qed.
+Print Assumptions C34_api_roundtrip.
+
+(** v0 wire format: want-list and full flag are preserved; the blocks come back as
+    exactly the block byte strings that were sent, each under the CIDv0 of its own
+    bytes ([d' = d] whenever sha2-256 does not collide on the message's blocks). *)
+Theorem C34_v0_roundtrip : forall H H0 m pb,
+  wf_v0b m = true -> pb_perm pb (to_pb_v0 m) ->
+  exists m0, from_pb H H0 pb = Some m0 /\
+    m_full m0 = m_full m /\
+    (forall k, aget k (m_wl m0) = aget k (m_wl m)) /\
+    (forall c d, In (c, d) (m_blocks m0) -> c = H0 d /\ In d (map snd (m_blocks m))) /\
+    (forall d, In d (map snd (m_blocks m)) ->
+       exists d', aget (H0 d) (m_blocks m0) = Some d' /\ H0 d' = H0 d).
+Proof. exact v0_roundtrip. Qed.
+Print Assumptions C34_v0_roundtrip.
+
+(** Self-certification, for EVERY pb input (any bytes in any field): each block of a
+    decoded message carries the CID computed from its own data — by Prefix.Sum under
+    the prefix that travelled with it, or as sha2-256 CIDv0 for a bare v0 block. *)
+Theorem C34_self_certifying : forall H H0 pb m, from_pb H H0 pb = Some m ->
+  forall c d, In (c, d) (m_blocks m) ->
+    (exists pfx p, In (pfx, d) (pb_payload pb) /\ prefix_from_bytes pfx = Some p /\ H p d = Some c) \/
+    (In d (pb_blocks pb) /\ c = H0 d).
+Proof. exact self_certifying. Qed.
+Print Assumptions C34_self_certifying.
+
+(** ... hence re-hashing a decoded block under its own CID's prefix gives that CID
+    (the two hypotheses are laws of go-cid's Prefix.Sum; the harness re-checks them on
+    every oracle table it writes). *)
+Theorem C34_self_certifying_b : forall H H0,
+  (forall p d c, H p d = Some c -> H (prefix_of c) d = Some c) ->
+  (forall d, H (prefix_of (H0 d)) d = Some (H0 d)) ->
+  forall pb m, from_pb H H0 pb = Some m -> selfcertb H m = true.
+Proof. exact self_certifying_b. Qed.
+Print Assumptions C34_self_certifying_b.
+
+(** Reject or whole: the decoder fails exactly when some item on the wire is
+    malformed (undefined/ill-formed CID, unparsable prefix, failing hash), and when it
+    succeeds nothing was dropped: every entry, block and presence on the wire is in the
+    message (a presence may be superseded by the block itself). *)
+Theorem C34_reject_iff : forall H H0 pb, from_pb H H0 pb = None <-> pb_okb H pb = false.
+Proof. exact reject_iff. Qed.
+Print Assumptions C34_reject_iff.
+
+Theorem C34_whole : forall H H0 pb m, from_pb H H0 pb = Some m -> wholeb H H0 pb m = true.
+Proof. exact whole. Qed.
+Print Assumptions C34_whole.
+
+(** addEntry merge rules, for every sequence of entries (duplicates on the wire or
+    repeated API calls): the entry of a CID is the sequential merge of exactly the items
+    naming that CID; cancel and send-dont-have are sticky, want-block beats want-have. *)
+Theorem C34_merge_per_cid : forall its wl c,
+  aget c (fold_left add_item its wl) =
+  fold_left merge_item (filter (fun it : item => bytes_eqb (fst it) c) its) (aget c wl).
+Proof. exact merge_per_cid. Qed.
+Print Assumptions C34_merge_per_cid.
+
+Theorem C34_merge_rules : forall its e,
+  match fold_left merge_item its (Some e) with
+  | Some e' =>
+      e_cancel e' = e_cancel e || existsb it_cancel its /\
+      e_sdh e' = e_sdh e || existsb it_sdh its /\
+      e_wt e' = (if (e_wt e =? WHave) && existsb (fun it => it_wt it =? WBlock) its then WBlock else e_wt e)
+  | None => False
+  end.
+Proof. exact merge_fold_flags. Qed.
+Print Assumptions C34_merge_rules.
+
+(** Repeating the same entry is stable from the second time on.  (It is NOT idempotent
+    at the first repetition: want-have(p1) then want-block(p2) keeps p1, a second
+    want-block(p2) then sets p2 — the code's rule "priority only changes for the same
+    type" is evaluated before the upgrade.) *)
+Theorem C34_merge_stable : forall e p c wt s,
+  let e1 := merge_ent e p c wt s in merge_ent e1 p c wt s = merge_ent (merge_ent e1 p c wt s) p c wt s.
 Proof. exact merge_idem. Qed.
-Print Assumptions C34_merge_idempotent.
+Print Assumptions C34_merge_stable.
+
+(** the CID layer: Cast is a filter, Prefix.Bytes/PrefixFromBytes and the varints round-trip *)
+Theorem C34_cast_exact : forall b c, cast b = Some c -> c = b.
+Proof. exact cast_some. Qed.
+Print Assumptions C34_cast_exact.
+
+Theorem C34_prefix_roundtrip : forall c, prefix_from_bytes (prefix_bytes (prefix_of c)) = Some (prefix_of c).
+Proof. intro c. apply prefix_roundtrip. apply prefix_of_ok. Qed.
+Print Assumptions C34_prefix_roundtrip.
+
+Theorem C34_uvarint_roundtrip : forall x rest, 0 <= x < 2 ^ 63 -> uvarint (putuv x ++ rest) = Some (x, rest).
+Proof. exact uvarint_putuv. Qed.
+Print Assumptions C34_uvarint_roundtrip.
+
+(** ---------- non-vacuity ---------- *)
+(** identity-hash CIDs (v1, raw): a concrete hash table, a message with an entry, an
+    honest block and a presence, built through the API *)
+Definition ex_c1 : cid := [1; 85; 0; 2; 5; 6].
+Definition ex_c2 : cid := [1; 85; 0; 1; 9].
+Definition ex_tab : htab := [((1, 85, 0, 2), [5; 6], Some ex_c1)].
+Definition ex_ops : list op :=
+  [OAddEntry ex_c2 3 WHave true; OAddEntry ex_c2 7 WBlock false; OAddPresence ex_c2 1;
+   OAddPresence ex_c1 0; OAddBlock ex_c1 [5; 6]; OSetPending 42].
+
+Example C34_example_wf :
+  forallb (op_okb (H_of ex_tab)) ex_ops = true /\
+  wfb (H_of ex_tab) (run true ex_ops) = true /\
+  run true ex_ops = mkmsg true [(ex_c2, mkent 3 WBlock false true)] [(ex_c1, [5; 6])] [(ex_c2, 1)] 42 /\
+  from_pb (H_of ex_tab) (H0_of ex_tab) (to_pb_v1 (run true ex_ops)) = Some (run true ex_ops).
+Proof. vm_compute. repeat split; reflexivity. Qed.
+
+(** hostile wire input: duplicate entries merge, a truncated CID rejects the whole message *)
+Example C34_example_reject :
+  let good := mkpe ex_c2 1 false WHave false in
+  let bad := mkpe [1; 85; 0; 2; 5] 1 false WBlock false in
+  from_pb (H_of ex_tab) (H0_of ex_tab) (mkpb (Some ([good; bad], false)) [] [] [] 0) = None /\
+  from_pb (H_of ex_tab) (H0_of ex_tab) (mkpb (Some ([good; mkpe ex_c2 9 true WBlock true], false)) [] [] [] 0)
+    = Some (mkmsg false [(ex_c2, mkent 1 WBlock true true)] [] [] 0).
+Proof. vm_compute. split; reflexivity. Qed.
+
+Example C34_example_varint : uvarint (putuv 9223372036854775807 ++ [7]) = Some (9223372036854775807, [7]) /\
+  uvarint [128; 0] = None /\ uvarint [255; 255; 255; 255; 255; 255; 255; 255; 255; 1] = None.
+Proof. vm_compute. repeat split; reflexivity. Qed.
